@@ -37,7 +37,10 @@ def build_model(it, w, spec, generic_bank=True):
         kinds = needed_kinds([in_sig, out_sig])
         if spec.get("missing"):
             kinds = [k for k in kinds if tuple(k) not in [tuple(m) for m in spec["missing"]]]
-        if generic_bank:
+        if spec.get("_plain_bank"):
+            fb = {t: A.leaf("F%s" % tname(t), (1,) + (3,) * D + (D,) * t[0]) for t in kinds}
+            ub = {t: A.leaf("U%s" % tname(t), (1,) + (2,) * D + (D,) * t[0]) for t in kinds}
+        elif generic_bank:
             fb = invariant_bank_blocks(D, 3, kinds, G, nf=1)
             ub = invariant_bank_blocks(D, 2, kinds, G, nf=1, prefix="U")
         else:
